@@ -1,4 +1,5 @@
 import TrionModel.Lemmas.AsmBase
+import TrionModel.Lemmas.SimpE
 /-!
 # `Trion.Asm`: the primitives keep the invariant and do not panic
 (`get/insert/defer_constant`, `add_task`, `evaluate`, the region writes)
@@ -130,9 +131,16 @@ theorem evaluateT_ne_panic (lk : Bytes → Simp.Lookup) (isReg : Bytes → Bool)
   rw [h] at e
   exact Simp.eval_no_panic lk isReg a e.symm
 
+theorem evaluateE_ne_panic (lk : Bytes → Simp.Lookup) (isReg : Bytes → Bool) (a : Arg) :
+    Simp.evaluateE lk isReg a ≠ .panic := by
+  intro h
+  have e := Simp.evaluateE_is_evaluateT lk isReg a
+  rw [h] at e
+  exact evaluateT_ne_panic lk isReg a e.symm
+
 theorem evalIn_ok (t : Table) (a : Arg) : ∃ ev, evalIn t a = .ok ev := by
   unfold evalIn
-  have := evaluateT_ne_panic (fun n => t.get n) Front.isRegister a
+  have := evaluateE_ne_panic (fun n => t.get n) Front.isRegister a
   split
   · split <;> exact ⟨_, rfl⟩
   · exact ⟨_, rfl⟩
